@@ -339,7 +339,7 @@ CLAIMED.update({
         category="other",
         text="Kernel-level partial claim on the JSON target: (1) the text written for a literal, for a name bound to a constant and for a folded constant expression is the value-to-JSON "
              "writer applied to that value (not the token's source text, not ValueObj's Display); (2) the writer writes None as null and booleans as true / false (all values, Kani); "
-             "(3) for a Str value it calls one string kernel, and for every string of k characters (k <= 2 quick, <= 3 thorough; every Unicode scalar value for each character) the "
+             "(3) for a Str value it calls one string kernel, and for every string of k characters (k <= 2 quick, <= 4 thorough; every Unicode scalar value for each character) the "
              "kernel's text is exactly one RFC 8259 string literal that decodes to the same string; (4) the list / tuple / record / dict arms of transpile_expr, transpile_def and "
              "transpile, on containers of n <= 2 (thorough 3) opaque elements whose texts are JSON values by the induction hypothesis, write the JSON array / object of those texts in "
              "order, each name or key with its own value (every binding public); (5) the writer itself does the same for list / tuple / dict / record *values* (names bound to "
@@ -363,7 +363,7 @@ CLAIMED.update({
                   "(cargo test, read back with python's ast.literal_eval) and as programs (`erg run` vs `erg transpile` + python3)",
         category="other",
         text="Kernel-level partial claim on 'transpiled Python behaves like the compiled bytecode': the text written for a string literal of the program is <class>(K(x)) for one "
-             "function K applied to the literal's value (or the token's content), and for every string of k characters (k <= 2 quick, <= 3 thorough; every Unicode scalar value for "
+             "function K applied to the literal's value (or the token's content), and for every string of k characters (k <= 2 quick, <= 4 thorough; every Unicode scalar value for "
              "each character) K's text is exactly one double-quoted Python string literal that denotes the same string (quotes, backslashes, newlines, NUL, the octal-escape "
              "digit-swallowing rule, \\x / \\u escapes). Everything else of the transpiler - statements, names and mangling, calls, classes, records, the runtime prelude - and whole-"
              "program behaviour under the interpreter are not decided.",
